@@ -52,11 +52,14 @@ MuGrid == {<<0, 1>>, <<1, 1>>, <<-7, 2>>, <<1000000, 1>>, <<-1000000, 1>>}
 SigmaGrid == {<<1, 1>>, <<1, 1000000>>, <<5, 2>>, <<1000, 1>>, <<1000000, 1>>}
 ZGrid == {<<0, 1>>, <<1, 1000>>, <<1, 2>>, <<1, 1>>, <<2, 1>>, <<3, 1>>, <<5, 1>>, <<8, 1>>, <<13, 1>>, <<25, 1>>, <<38, 1>>, <<40, 1>>}
 VGrid == {<<1, 10>>, <<1, 2>>, <<1, 1>>, <<5, 2>>, <<7, 1>>, <<30, 1>>, <<100, 1>>, <<10000, 1>>}
+\* a dense walk over the degrees of freedom (eighths up to 1000, then integers to 10^4): implementations switch between
+\* Gamma, log-Gamma and asymptotic forms somewhere in this range
+VWalk == {<<k, 8>> : k \in 1..8000} \cup {<<k, 1>> : k \in 1001..10000}
 Emit ==
   /\ (kind = "tlattice" /\ done) => LET r == TLattice(par.nu, par.tp, par.tq) IN
         PrintT(ToJson([kind |-> "tlattice", nu |-> par.nu, tp |-> par.tp, tq |-> par.tq,
                        xnum |-> r.xnum, xden |-> r.xden, fnum |-> r.fnum, fden |-> r.fden]))
-  /\ (kind = "grid" /\ ~done) => PrintT(ToJson([kind |-> "grid", mus |-> MuGrid, sigmas |-> SigmaGrid, zs |-> ZGrid, vs |-> VGrid]))
+  /\ (kind = "grid" /\ ~done) => PrintT(ToJson([kind |-> "grid", mus |-> MuGrid, sigmas |-> SigmaGrid, zs |-> ZGrid, vs |-> VGrid, vwalk |-> VWalk]))
 NusDef == {2, 4, 6, 8, 10, 12, 14, 16, 18, 20}
 TsQuick == {<<1, 3>>, <<1, 2>>, <<1, 1>>, <<3, 2>>, <<2, 1>>, <<3, 1>>, <<5, 1>>, <<7, 3>>}
 TsThorough == TsQuick \cup {<<1, 10>>, <<1, 5>>, <<2, 3>>, <<4, 3>>, <<5, 2>>, <<4, 1>>, <<7, 1>>, <<10, 1>>, <<9, 4>>, <<11, 5>>}
